@@ -56,7 +56,28 @@ func buildC13Workload(c *Ctx) *c13Workload {
 		"((MIT AND ISC) AND Apache-2.0) AND (BSD-3-Clause OR Zlib)", "(LicenseRef-a OR LicenseRef-b) AND MIT OR ISC"} {
 		add(s)
 	}
-	for i := 0; len(w.exprs) < 150; i++ {
+	// spelling families: the same id in every spelling and letter case, as separate expressions. A cache or
+	// memo keyed by part of the spelling (case-folded text, id without '+', ...) makes one of them poison another,
+	// and the permuted histories put the poisoner on either side.
+	famIDs := []string{"MIT", "Apache-2.0", "GPL-2.0-only", "GPL-2.0-or-later"}
+	famIDs = append(famIDs, u.DepFold[r.Intn(len(u.DepFold))], u.DepFold[r.Intn(len(u.DepFold))], u.DepPlain[r.Intn(len(u.DepPlain))],
+		u.InTable[r.Intn(len(u.InTable))], u.SynthBase[r.Intn(len(u.SynthBase))], u.ListedLater[r.Intn(len(u.ListedLater))])
+	exc := u.Exceptions[r.Intn(len(u.Exceptions))]
+	for _, id := range famIDs {
+		for _, cs := range []func(string) string{func(x string) string { return x }, strings.ToLower, strings.ToUpper} {
+			base := cs(id)
+			add(base)
+			add(base + "+")
+			add(base + " WITH " + cs(exc))
+			add(base + "+ WITH " + exc)
+			if u.SpellOK(id, gen.SpOnly) {
+				add(base + "-only")
+				add(base + "-or-later")
+			}
+			add("(" + base + ") AND LicenseRef-" + cs("Fam"))
+		}
+	}
+	for i := 0; len(w.exprs) < 150+len(famIDs)*18; i++ {
 		tc := genRandomTree(c, "C13", i, 64)
 		switch r.Intn(5) {
 		case 0: // invalid mutation
